@@ -145,3 +145,15 @@ def obs_close(a, b, tol=1e-10):
             return a != a and b != b
         return abs(a - b) <= tol
     return a == b
+
+
+def bivariate_forms(fn, st1, st2, edges, **kw):
+    """The bivariate result of a profile function `fn` obtained through its other
+    call forms: a two-element list, and a longer list with `indices` naming the two
+    trains (the extra train differs from both).  -> [(form name, profile)]"""
+    import pyspike as spk
+    ts, te = edges
+    dummy = spk.SpikeTrain([ts + (te - ts) * 0.625], edges)
+    return [("f([a,b])", fn([st1, st2], **kw)),
+            ("f([x,a,b], indices=[1,2])", fn([dummy, st1, st2], indices=[1, 2], **kw)),
+            ("f([a,x,b], indices=[0,2])", fn([st1, dummy, st2], indices=[0, 2], **kw))]
